@@ -50,7 +50,7 @@ pub mod ax {
 } // verus!
 '''
 
-SPEC = open(__file__.replace('opt.py', 'opt_spec.rs')).read()
+SPEC = open(__file__.replace('opt.py', 'rw_spec.rs')).read() + open(__file__.replace('opt.py', 'opt_spec.rs')).read()
 
 
 def types_from_repo():
@@ -255,12 +255,11 @@ def build():
                     // H: the duplicate's out slot is mentioned by no kept op.  NOT established by the code: see known_findings.json (C03-alias)
                     assert(dup_out != root ==> !list_mentions(result@, dup_out)); // @@A:H_dup_out_unmentioned
                 }''')
-    r.before('continue;', '''proof {
+    r.before('/*continue*/', '''proof {
                 if dup_out != root { lemma_inv_dup_insert(ops0, i, result@, rw, seen0, seen_idx, cover, op1); }
                 else { lemma_inv_dup_same(ops0, i, result@, rw, seen0, seen_idx, cover, op1); }
                 cover = cover.push(seen_idx[alu_key(op1)]);
             }''')
-    r.rewrite('R3', 'continue; } result.push(op);', '} else { result.push(op); }')
     r.after('result.push(op);', '''proof {
                 if is_alu(op1) { lemma_key_of_rewritten(rw, ops0[i], op1); }
                 lemma_inv_push(ops0, i, res0, rw, seen0, seen_idx, cover, op1, self_.seen@);
